@@ -25,13 +25,13 @@ structure Block (α : Type) where
 /-- `score > threshold` -/
 abbrev gtThr (gt : α → α → Bool) (s : α) (θ : α) : Bool := gt s θ
 
-/-- mirrors: weight.rs::for_each_pruning_scorer on a list of `(doc, score)` -/
+/-- mirrors: src/query/weight.rs::for_each_pruning_scorer on a list of `(doc, score)` -/
 def exhaustive (gt : α → α → Bool) (cb : σ → Nat → α → σ × α) : σ × α → List (Nat × α) → σ × α
   | st, [] => st
   | (s, θ), (d, sc) :: rest =>
     if gt sc θ then exhaustive gt cb (cb s d sc) rest else exhaustive gt cb (s, θ) rest
 
-/-- mirrors: block_wand_union.rs::block_wand_single_scorer.
+/-- mirrors: src/query/boolean_query/block_wand_union.rs::block_wand_single_scorer.
 `while scorer.block_max_score() <= threshold { skip the block }`, then every document of the
 block is scored and offered if `score > threshold`; then the next block. -/
 def wandSingle (gt : α → α → Bool) (cb : σ → Nat → α → σ × α) : σ × α → List (Block α) → σ × α
@@ -64,7 +64,7 @@ def TermList.scoreOf (t : TermList) (doc : Nat) : Nat :=
   | some p => p.2
   | none => 0
 
-/-- mirrors: block_wand_union.rs::find_pivot_doc on scorers sorted by current doc:
+/-- mirrors: src/query/boolean_query/block_wand_union.rs::find_pivot_doc on scorers sorted by current doc:
 returns the pivot document, or `none` if the sum of all bounds does not exceed the threshold -/
 def findPivot (θ : Nat) : List TermList → Nat → Option Nat
   | [], _ => none
